@@ -10,9 +10,6 @@ Definition robs_eqb (a b : robs) : bool :=
   | _, _ => false
   end.
 
-Definition accepted_b (r : init_result) : bool :=
-  match r with Accepted _ _ => true | Rejected _ => false end.
-
 Inductive case :=
 (* library casers on names: for every word w of length len over alpha, in lexicographic
    order of positions, cases.Title(Und)(prefix+w) and CanonicalMIMEHeaderKey(prefix+w), each
@@ -28,6 +25,10 @@ Inductive case :=
 | CInit (colon : bool) (ep be : string) (accepted : bool)
 (* Init on a tokenised endpoint / url_pattern, with the text the harness handed to Init *)
 | CInitT (colon : bool) (segs be : list tok) (eptext betext : string) (accepted : bool)
+(* a configuration with several endpoints, initialised as a whole under the adapter's routing
+   mode; when accepted, one request per endpoint through ONE router: values and observation *)
+| CConfig (a : adapter) (eps : list (list tok * list tok)) (texts : list (string * string))
+          (accepted : bool) (routes : list (list string * robs))
 (* one request through an adapter *)
 | CRoute (a : adapter) (segs be : list tok) (eptext betext : string) (vals : list string) (o : robs).
 
@@ -69,6 +70,20 @@ Definition check_case (c : case) : bool * bool :=
        forallb seg_ok segs && forallb be_tok_ok be &&
        Bool.eqb (accepted_b (init ept bet)) acc,
        spec_init_b (ph_names segs) (ph_names be) acc)
+  | CConfig a eps texts acc routes =>
+      let rendered := map (fun e => (render_ep (fst e), render (snd e))) eps in
+      (list_eqb (fun x y => str_eqb (fst x) (fst y) && str_eqb (snd x) (snd y)) rendered texts &&
+       forallb (fun e => forallb seg_ok (fst e) && forallb be_tok_ok (snd e)) eps &&
+       Bool.eqb (init_config texts) acc &&
+       (if acc then
+          Nat.eqb (List.length routes) (List.length eps) &&
+          forallb (fun er => let '(e, (vals, o)) := er in
+                     wf_route (fst e) (snd e) vals && robs_eqb (serve a (fst e) (snd e) vals) o)
+                  (combine eps routes)
+        else true),
+       forallb (fun e => spec_init_b (ph_names (fst e)) (ph_names (snd e)) acc) eps &&
+       forallb (fun er => let '(e, (vals, o)) := er in spec_route_b (fst e) (snd e) vals o)
+               (combine eps routes))
   | CRoute a segs be ept bet vals o =>
       (str_eqb (render_ep segs) ept && str_eqb (render be) bet && wf_route segs be vals &&
        robs_eqb (serve a segs be vals) o,
